@@ -82,6 +82,8 @@ def write_cases(proj, tier):
                     signed = Q.ATOMS[t.typ][2][2]
                     out.append((text, (1 << (bits - 1)) if signed else (1 << bits), cls + "-range"))
                     out.append((text, "abc", cls + "-range"))
+                    # numbers without an exact encoding for an integer tag are refused, not rounded; digits in a string are a string
+                    out += [(text, 2.7, cls + "-range"), (text, "12", cls + "-range"), (text, -0.5, cls + "-range")]
                 if not isinstance(t.typ, TypeDef) and t.typ not in ("BOOL",):
                     out.append((text, bytes((i * 17 + 3) & 0xFF for i in range(Q.type_size(t.typ))), cls + "-raw"))
             else:
